@@ -1,0 +1,308 @@
+//go:build verif
+
+// Contracts for package identity (C10 validator election per block; C18 division by total power; C02 fee shares).
+// Comment-only file, read by /verif/govc.
+// Functions of validator_set_allegation.go are in verif_contracts_allegation.go (other owner).
+
+package identity
+
+// ---------------------------------------------------------------- vocabulary
+//
+// vHasRec(vs)[a] / vRec(vs)[a] : the validator record stored under address bytes a (current state, prefix vs.prefix)
+// purgeH(vs)[a]                : last purge height recorded for address bytes a (0 = never purged)
+// prevData(vs,h,a)             : the bytes of a's record in the saved state of block h (what store.GetVersioned(h, prefix+a) returns)
+// prevRec(vs,h,a)              : that record decoded with the serializer (what the election reads)
+//@ model vHasRec(*ValidatorStore) array[string]bool
+//@ model vRec(*ValidatorStore) array[string]Validator
+//@ model purgeH(*ValidatorStore) array[string]int
+//@ ghost func prevData(vs *ValidatorStore, h int, a bytes) bytes = verVal(vs.store.cs)[h][str(vs.prefix) + str(a)]
+//@ ghost func prevRec(vs *ValidatorStore, h int, a bytes) Validator = deser(verVal(vs.store.cs)[h][str(vs.prefix) + str(a)], "Validator")
+
+// wfVS(vs): store invariant "the record filed under address a carries Address == a" (set files a record under its own Address field)
+//@ ghost func wfVS(vs *ValidatorStore) bool = forall a string :: vHasRec(vs)[a] ==> str(vRec(vs)[a].Address) == a
+
+// calculatePower: the power is the stake truncated to int64 (no range check: a stake of 2^63 wraps to a negative power)
+//@ func calculatePower
+//@   safety C18
+//@   modifies nothing
+//@   ensures result == wrap64(stake)                                                             // C10.power-is-stake
+
+// ---------------------------------------------------------------- typed view of the State prefixes
+// Assumed (rests on C09's State contracts and on T-SER round-tripping of Validator / int64), like balance.get/set.
+
+//@ assume func (*ValidatorStore).Get
+//@   modifies nothing
+//@   ensures err == nil ==> result0 != nil && fresh(result0) && vHasRec(vs)[str(addr)] && *result0 == vRec(vs)[str(addr)]
+//@   ensures err != nil ==> result0 == nil
+
+//@ assume func (*ValidatorStore).Exists
+//@   modifies nothing
+//@   ensures result == vHasRec(vs)[str(addr)]
+
+//@ assume func (*ValidatorStore).set
+//@   modifies vHasRec(vs)[str(validator.Address)], vRec(vs)[str(validator.Address)], vHas(vs.store), vVal(vs.store)
+//@   ensures err == nil ==> vHasRec(vs)[str(validator.Address)] && vRec(vs)[str(validator.Address)] == validator
+//@   ensures err != nil ==> vHasRec(vs)[str(validator.Address)] == old(vHasRec(vs)[str(validator.Address)]) && vRec(vs)[str(validator.Address)] == old(vRec(vs)[str(validator.Address)])
+
+//@ assume func (*ValidatorStore).GetLastPurgeHeight
+//@   modifies nothing
+//@   ensures err == nil ==> height == purgeH(vs)[str(validator)]                                 // C10.purge-height
+
+//@ assume func (*ValidatorStore).SetLastPurgeHeight
+//@   modifies purgeH(vs)[str(validator)], vHas(vs.store), vVal(vs.store)
+//@   ensures err == nil ==> purgeH(vs)[str(validator)] == height                                 // C10.purge-height
+//@   ensures err != nil ==> purgeH(vs)[str(validator)] == old(purgeH(vs)[str(validator)])        // C10.purge-height
+
+// ---------------------------------------------------------------- stake / unstake bookkeeping
+
+//@ func (*ValidatorStore).HandleStake
+//@   safety C18
+//@   requires vs != nil && wfVS(vs)
+//@   modifies vHasRec(vs)[str(apply.ValidatorAddress)], vRec(vs)[str(apply.ValidatorAddress)], vHas(vs.store), vVal(vs.store)
+//@   ensures wfVS(vs)                                                                            // C10.store-wf
+//@   ensures err == nil && old(vHasRec(vs)[str(apply.ValidatorAddress)]) ==> vRec(vs)[str(apply.ValidatorAddress)].Staking == old(vRec(vs)[str(apply.ValidatorAddress)].Staking) + apply.Amount   // C10.stake-delta
+//@   ensures err == nil && !old(vHasRec(vs)[str(apply.ValidatorAddress)]) ==> vRec(vs)[str(apply.ValidatorAddress)].Staking == apply.Amount   // C10.stake-delta
+//@   ensures err == nil ==> vHasRec(vs)[str(apply.ValidatorAddress)] && vRec(vs)[str(apply.ValidatorAddress)].Power == wrap64(vRec(vs)[str(apply.ValidatorAddress)].Staking)   // C10.power-is-stake
+//@   ensures err == nil ==> !(purgeH(vs)[str(apply.ValidatorAddress)] > 0 && wrap64(purgeH(vs)[str(apply.ValidatorAddress)] + 2) > height)   // C10.purge-guard  (no stake within 2 blocks after a purge)
+//@   ensures err != nil ==> vHasRec(vs)[str(apply.ValidatorAddress)] == old(vHasRec(vs)[str(apply.ValidatorAddress)]) && vRec(vs)[str(apply.ValidatorAddress)] == old(vRec(vs)[str(apply.ValidatorAddress)])   // C10.stake-delta
+
+//@ func (*ValidatorStore).HandleUnstake
+//@   safety C18
+//@   requires vs != nil && wfVS(vs)
+//@   modifies vHasRec(vs)[str(unstake.Address)], vRec(vs)[str(unstake.Address)], vHas(vs.store), vVal(vs.store)
+//@   ensures wfVS(vs)                                                                            // C10.store-wf
+//@   ensures err == nil ==> old(vHasRec(vs)[str(unstake.Address)]) && vRec(vs)[str(unstake.Address)].Staking == old(vRec(vs)[str(unstake.Address)].Staking) - unstake.Amount   // C10.stake-delta
+//@   ensures err == nil ==> vRec(vs)[str(unstake.Address)].Power == wrap64(vRec(vs)[str(unstake.Address)].Staking)   // C10.power-is-stake
+//@   ensures err == nil ==> !(purgeH(vs)[str(unstake.Address)] > 0 && wrap64(purgeH(vs)[str(unstake.Address)] + 2) > height)   // C10.purge-guard
+//@   ensures err != nil ==> vRec(vs)[str(unstake.Address)] == old(vRec(vs)[str(unstake.Address)])   // C10.stake-delta
+
+// ---------------------------------------------------------------- last block's active set (from Tendermint's LastCommitInfo)
+
+//@ func (*ValidatorStore).cacheActiveValidators
+//@   safety C18
+//@   requires vs != nil
+//@   modifies vs.lastActive
+//@   ensures vs.lastActive != nil && fresh(vs.lastActive)                                        // C10.last-active
+//@   ensures forall j int :: 0 <= j && j < len(lastCommit.Votes) ==> has(vs.lastActive, str(lastCommit.Votes[j].Validator.Address))   // C10.last-active
+//@   ensures forall a string :: has(vs.lastActive, a) ==> exists j int :: 0 <= j && j < len(lastCommit.Votes) && str(lastCommit.Votes[j].Validator.Address) == a   // C10.last-active
+//@   invariant loop1: 0 <= $i && $i <= len(lastCommit.Votes) && vs.lastActive != nil    // C10.last-active
+//@   invariant loop1: forall j int :: 0 <= j && j < $i ==> has(vs.lastActive, str(lastCommit.Votes[j].Validator.Address))   // C10.last-active
+//@   invariant loop1: forall a string :: has(vs.lastActive, a) ==> exists j int :: 0 <= j && j < $i && str(lastCommit.Votes[j].Validator.Address) == a   // C10.last-active
+
+// ---------------------------------------------------------------- the election queue (container/heap over utils.PriorityQueue)
+//
+// container/heap is external. The wrappers are ASSUMED with the textbook heap semantics, which rest on the proved
+// contracts of utils.PriorityQueue.{Len,Less,Swap,Push,Pop} (Less = higher priority first; Swap/Push/Pop keep slots
+// and index fields consistent): Pop removes and returns an element of maximal priority, the remaining slots are the
+// other old slots (witnessed by the ghost fields popSlot/popFrom of the returned item); Push adds the element; Init only
+// permutes. Only the index fields of queued items change. The clauses of the form old(P(q)) ==> P(q) are consequences
+// of "the new slots are old slots", stated explicitly to spare the solver the permutation argument.
+// wfPQ(q) (defined in package utils): every slot holds a non-nil item whose index field is its slot
+// qAlloc(q): the slots hold allocated objects (so a freshly allocated item is none of them)
+//@ ghost func qAlloc(q utils.PriorityQueue) bool = forall k int :: 0 <= k && k < len(q) ==> allocated(q[k])
+// qMax(arr(q)): ghost upper bound on the priorities queued in q (attached to the backing array; heap.Init chooses it,
+// heap.Pop lowers it to the priority it returns: everything left is at most the maximum just removed)
+//@ model qMax(utils.PriorityQueue) int
+//@ ghost func qBound(q utils.PriorityQueue) bool = forall k int :: 0 <= k && k < len(q) ==> q[k].priority <= qMax(arr(q))
+// qNonNeg(q): no queued priority is negative
+//@ ghost func qNonNeg(q utils.PriorityQueue) bool = forall k int :: 0 <= k && k < len(q) ==> q[k].priority >= 0
+// Ghost witnesses "every remaining slot is an old slot" (fresh per call, keyed by the ITEM so that the only index terms
+// are slot reads). That no item is duplicated or lost is carried by the lengths and by wfPQ (index field == slot, the
+// invariant utils.PriorityQueue.{Swap,Push,Pop} are proved to maintain), not by a separate injectivity clause.
+// popSlot(r): the slot the popped item r occupied before heap.Pop; popFrom(r)[x]: the old slot of remaining item x.
+//@ model popSlot(*utils.Queued) int
+//@ model popFrom(*utils.Queued) array[int]int
+
+// Len is PROVED (it only calls utils.PriorityQueue.Len). Its second clause is a machine-checked LEMMA, attached here
+// because Len is pure: per-slot facts qValIdx (the item recorded for a slot's value is that slot's item) and wfPQ
+// (index field == slot) imply that the queued values are pairwise different (qDistinct).
+//@ func (*ValidatorQueue).Len
+//@   safety C18
+//@   requires vq != nil
+//@   modifies nothing
+//@   ensures result == len(vq.PriorityQueue)                                                      // C10.pq-len
+//@   ensures wfPQ(vq.PriorityQueue) && qValIdx(vq.PriorityQueue) ==> qDistinct(vq.PriorityQueue)  // C10.lemma-distinct
+
+//@ assume func (*ValidatorQueue).Pop
+//@   requires vq != nil
+//@   modifies vq.PriorityQueue, elems(vq.PriorityQueue), heap("utils.Queued"), allmodel("popSlot"), allmodel("popFrom"), qMax(arr(vq.PriorityQueue))
+//@   ensures forall q *utils.Queued :: q.priority == old(q.priority) && q.value == old(q.value)
+//@   ensures arr(vq.PriorityQueue) == old(arr(vq.PriorityQueue))
+//@   ensures old(len(vq.PriorityQueue)) == 0 ==> result == nil && len(vq.PriorityQueue) == 0
+//@   ensures old(len(vq.PriorityQueue)) > 0 ==> len(vq.PriorityQueue) == old(len(vq.PriorityQueue)) - 1 && 0 <= popSlot(result) && popSlot(result) < old(len(vq.PriorityQueue)) && result == old(elems(vq.PriorityQueue))[old(off(vq.PriorityQueue)) + popSlot(result)]
+//@   ensures forall k int :: 0 <= k && k < len(vq.PriorityQueue) ==> 0 <= popFrom(result)[vq.PriorityQueue[k]] && popFrom(result)[vq.PriorityQueue[k]] < old(len(vq.PriorityQueue)) && popFrom(result)[vq.PriorityQueue[k]] != popSlot(result) && vq.PriorityQueue[k] == old(elems(vq.PriorityQueue))[old(off(vq.PriorityQueue)) + popFrom(result)[vq.PriorityQueue[k]]]
+//@   ensures old(wfPQ(vq.PriorityQueue)) ==> wfPQ(vq.PriorityQueue) && (old(len(vq.PriorityQueue)) > 0 ==> result != nil)
+//@   ensures old(wfPQ(vq.PriorityQueue)) ==> forall k int :: 0 <= k && k < len(vq.PriorityQueue) ==> vq.PriorityQueue[k].priority <= result.priority
+//@   ensures old(len(vq.PriorityQueue)) == 0 ==> qMax(arr(vq.PriorityQueue)) == old(qMax(arr(vq.PriorityQueue)))
+//@   ensures old(len(vq.PriorityQueue)) > 0 && old(wfPQ(vq.PriorityQueue)) ==> qMax(arr(vq.PriorityQueue)) == result.priority && qBound(vq.PriorityQueue)
+//@   ensures old(len(vq.PriorityQueue)) > 0 && old(qBound(vq.PriorityQueue)) ==> result.priority <= old(qMax(arr(vq.PriorityQueue)))
+// (implied by the clauses above; stated to spare the solver the permutation argument)
+//@   ensures old(qGood(vq.PriorityQueue)) ==> (old(len(vq.PriorityQueue)) > 0 ==> result != nil && result.priority <= old(qMax(arr(vq.PriorityQueue))) && qMax(arr(vq.PriorityQueue)) == result.priority && itemAt(qRow(arr(vq.PriorityQueue)), qPfx(arr(vq.PriorityQueue)), result)) && qGood(vq.PriorityQueue)
+//@   ensures old(qValIdx(vq.PriorityQueue)) ==> qValIdx(vq.PriorityQueue)
+//@   ensures old(qItems(vq.PriorityQueue)) ==> qItems(vq.PriorityQueue) && (old(len(vq.PriorityQueue)) > 0 ==> itemAt(qRow(arr(vq.PriorityQueue)), qPfx(arr(vq.PriorityQueue)), result))
+//@   ensures old(qNonNeg(vq.PriorityQueue)) ==> qNonNeg(vq.PriorityQueue) && (old(len(vq.PriorityQueue)) > 0 ==> result.priority >= 0)
+
+//@ model pushFrom(*utils.Queued) array[int]int
+// itemOfVal(<nil item>)[v]: ghost bookkeeping "the item last pushed with value v" (one global ghost array, keyed by nil);
+// it makes "queued values are pairwise different" a per-slot fact: itemOfVal(as(0, "*utils.Queued"))[q[k].value] == q[k]
+//@ model itemOfVal(*utils.Queued) array[string]int
+//@ ghost func qValIdx(q utils.PriorityQueue) bool = forall k int :: 0 <= k && k < len(q) ==> itemOfVal(as(0, "*utils.Queued"))[str(q[k].value)] == q[k]
+//@ assume func (*ValidatorQueue).Push
+//@   requires vq != nil && queued != nil
+//@   modifies vq.PriorityQueue, elems(vq.PriorityQueue), heap("utils.Queued"), allmodel("pushFrom"), itemOfVal(as(0, "*utils.Queued"))
+//@   ensures itemOfVal(as(0, "*utils.Queued")) == old(itemOfVal(as(0, "*utils.Queued")))[str(queued.value) := queued]
+//@   ensures old(wfPQ(vq.PriorityQueue)) && old(forall j int :: 0 <= j && j < len(vq.PriorityQueue) ==> vq.PriorityQueue[j] != queued) ==> wfPQ(vq.PriorityQueue)
+//@   ensures forall q *utils.Queued :: q.priority == old(q.priority) && q.value == old(q.value)
+//@   ensures len(vq.PriorityQueue) == old(len(vq.PriorityQueue)) + 1 && arr(vq.PriorityQueue) != 0
+//@   ensures forall k int :: 0 <= k && k < len(vq.PriorityQueue) ==> vq.PriorityQueue[k] == queued || (0 <= pushFrom(queued)[vq.PriorityQueue[k]] && pushFrom(queued)[vq.PriorityQueue[k]] < old(len(vq.PriorityQueue)) && vq.PriorityQueue[k] == old(elems(vq.PriorityQueue))[old(off(vq.PriorityQueue)) + pushFrom(queued)[vq.PriorityQueue[k]]])
+//@   ensures old(forall j int :: 0 <= j && j < len(vq.PriorityQueue) ==> vq.PriorityQueue[j] != queued) ==> forall k int, l int :: 0 <= k && k < l && l < len(vq.PriorityQueue) ==> vq.PriorityQueue[k] != queued || vq.PriorityQueue[l] != queued
+//@   ensures old(qAlloc(vq.PriorityQueue)) ==> qAlloc(vq.PriorityQueue)
+
+//@ model initFrom(*ValidatorQueue) array[int]int
+//@ assume func (*ValidatorQueue).Init
+//@   requires vq != nil
+//@   modifies elems(vq.PriorityQueue), heap("utils.Queued"), initFrom(vq), qMax(arr(vq.PriorityQueue))
+//@   ensures qBound(vq.PriorityQueue)
+//@   ensures forall q *utils.Queued :: q.priority == old(q.priority) && q.value == old(q.value)
+//@   ensures forall k int :: 0 <= k && k < len(vq.PriorityQueue) ==> 0 <= initFrom(vq)[vq.PriorityQueue[k]] && initFrom(vq)[vq.PriorityQueue[k]] < len(vq.PriorityQueue) && vq.PriorityQueue[k] == old(elems(vq.PriorityQueue))[old(off(vq.PriorityQueue)) + initFrom(vq)[vq.PriorityQueue[k]]]
+//@   ensures old(wfPQ(vq.PriorityQueue)) ==> wfPQ(vq.PriorityQueue)
+//@   ensures old(qAlloc(vq.PriorityQueue)) ==> qAlloc(vq.PriorityQueue)
+//@   ensures old(qValIdx(vq.PriorityQueue)) ==> qValIdx(vq.PriorityQueue)
+//@   ensures forall row array[string]bytes, pfx bytes :: old(qItemsAt(vq.PriorityQueue, row, pfx)) ==> qItemsAt(vq.PriorityQueue, row, pfx)
+
+// the store iteration visits each stored validator address once (IAVL range over the prefix): ASSUMED.
+// vkeys(vs)[n] is the n-th visited address, kpos(vs) its inverse (so visits are pairwise different), vcount(vs) their number.
+//@ model vkeys(*ValidatorStore) array[int]string
+//@ model kpos(*ValidatorStore) array[string]int
+//@ model vcount(*ValidatorStore) int
+//@ assume func (*ValidatorStore).Iterate
+//@   iterator
+//@   modifies nothing
+//@   count vcount(vs)
+//@   yields 0 <= $n && $n < vcount(vs) && str(y0) == vkeys(vs)[$n] && kpos(vs)[str(y0)] == $n && y1 != nil
+
+// itemAt(row, pfx, it): the queued item it is a validator address whose record exists and decodes in the saved state
+// row (= verVal(cs)[h]) under prefix pfx, and its priority is the power recorded there
+//@ ghost func itemAt(row array[string]bytes, pfx bytes, it *utils.Queued) bool = len(row[str(pfx) + str(it.value)]) != 0 && deserok(row[str(pfx) + str(it.value)], "Validator") && it.priority == deser(row[str(pfx) + str(it.value)], "Validator").Power
+//@ ghost func qItemsAt(q utils.PriorityQueue, row array[string]bytes, pfx bytes) bool = forall k int :: 0 <= k && k < len(q) ==> itemAt(row, pfx, q[k])
+// qRow(arr(q)) / qPfx(arr(q)): ghost provenance of a queue, attached to its backing array = the saved state row and the
+// key prefix InitValidatorQueue built it from (set by its `update` clauses); qItems(q): every item of q comes from there
+//@ model qRow(utils.PriorityQueue) array[string]bytes
+//@ model qPfx(utils.PriorityQueue) bytes
+//@ ghost func qItems(q utils.PriorityQueue) bool = forall k int :: 0 <= k && k < len(q) ==> itemAt(qRow(arr(q)), qPfx(arr(q)), q[k])
+// qGood(q): the three queue facts the election loop carries, as ONE per-slot statement (one quantifier for the solver):
+// wfPQ(q) && qBound(q) && qItems(q)
+//@ ghost func qGood(q utils.PriorityQueue) bool = forall k int :: 0 <= k && k < len(q) ==> q[k] != nil && q[k].index == k && q[k].priority <= qMax(arr(q)) && itemAt(qRow(arr(q)), qPfx(arr(q)), q[k])
+// qFromBlock(vs, h): every queued item comes from the saved state of block h
+//@ ghost func qFromBlock(vs *ValidatorStore, h int) bool = qItemsAt(vs.queue.PriorityQueue, verVal(vs.store.cs)[h], vs.prefix)
+// qDistinct(q): the queued addresses are pairwise different
+//@ ghost func qDistinct(q utils.PriorityQueue) bool = forall k int, l int :: 0 <= k && k < l && l < len(q) ==> str(q[k].value) != str(q[l].value)
+
+//@ func (*ValidatorStore).InitValidatorQueue
+//@   safety C18
+//@   requires vs != nil && vs.store != nil
+//@   ensures qFromBlock(vs, wrap64(vs.lastHeight - 1))                                            // C10.queue-from-prev-block
+//@   update qRow(arr(vs.queue.PriorityQueue)) := verVal(vs.store.cs)[wrap64(vs.lastHeight - 1)]
+//@   update qPfx(arr(vs.queue.PriorityQueue)) := vs.prefix
+//@   ensures qItems(vs.queue.PriorityQueue)                                                       // C10.queue-from-prev-block
+//@   ensures qBound(vs.queue.PriorityQueue)                                                       // C10.higher-stake-first
+//@   ensures qRow(arr(vs.queue.PriorityQueue)) == verVal(vs.store.cs)[wrap64(vs.lastHeight - 1)]                           // C10.queue-from-prev-block
+//@   ensures qPfx(arr(vs.queue.PriorityQueue)) == vs.prefix                                                                // C10.queue-from-prev-block
+// (pairwise different queued addresses: qValIdx && wfPQ ==> qDistinct is the lemma proved on (*ValidatorQueue).Len)
+//@   ensures qValIdx(vs.queue.PriorityQueue)                                                      // C10.queue-distinct
+//@   ensures wfPQ(vs.queue.PriorityQueue)                                                         // C10.queue-distinct
+//@   ensures vs.prefix == old(vs.prefix) && vs.store == old(vs.store) && vs.lastHeight == old(vs.lastHeight)   // C10.frame
+//@   invariant iter1: vs == vs0 && vs.prefix == old(vs.prefix) && vs.store == old(vs.store) && vs.store.cs == old(vs.store.cs) && vs.lastHeight == old(vs.lastHeight)   // C10.frame
+//@   invariant iter1: wfPQ(vs.queue.PriorityQueue) && qAlloc(vs.queue.PriorityQueue) && arr(vs.queue.PriorityQueue) != 0   // C10.queue-wf
+//@   invariant iter1: qItemsAt(vs.queue.PriorityQueue, verVal(old(vs.store.cs))[wrap64(old(vs.lastHeight) - 1)], old(vs.prefix))   // C10.queue-from-prev-block
+//@   invariant iter1: forall k int :: 0 <= k && k < len(vs.queue.PriorityQueue) ==> 0 <= kpos(vs)[str(vs.queue.PriorityQueue[k].value)] && kpos(vs)[str(vs.queue.PriorityQueue[k].value)] < $n   // C10.queue-distinct
+//@   invariant iter1: qValIdx(vs.queue.PriorityQueue)                                              // C10.queue-distinct
+
+// ---------------------------------------------------------------- the per-block election
+//
+// Vocabulary on pure values (so that the facts do not depend on the mutable heap):
+//   row  = verVal(vs.store.cs)[height-1] : the saved state of the previous block (key -> bytes)
+//   pfx  = vs.prefix, mal = the set of addresses (text form) flagged malicious, min = minimum self delegation
+// admRule(row,pfx,mal,min,a,u): update u is the positive update of the validator filed under address bytes a:
+//   its record exists and decodes in the previous block's state, the recorded power is at least min, the record's
+//   address is not flagged malicious, and u carries exactly that recorded power and that record's public key.
+//@ ghost func admRule(row array[string]bytes, pfx bytes, mal array[string]bool, min int, a bytes, u types.ValidatorUpdate) bool = len(row[str(pfx) + str(a)]) != 0 && deserok(row[str(pfx) + str(a)], "Validator") && deser(row[str(pfx) + str(a)], "Validator").Power >= min && !mal[addrStr(str(deser(row[str(pfx) + str(a)], "Validator").Address))] && u.Power == deser(row[str(pfx) + str(a)], "Validator").Power && str(u.PubKey.Data) == str(deser(row[str(pfx) + str(a)], "Validator").PubKey.Data)
+// issuedOK(row,pfx,mal,min,u) is DEFINED as "exists a :: admRule(row,pfx,mal,min,a,u)". The definition is given by the
+// two axioms below (introduction / elimination) instead of a macro because an existential nested under the
+// quantifier over update indices defeats the solvers' trigger selection; the axioms are a conservative (definitional)
+// extension: they constrain only the fresh predicate symbol.
+//@ ghost func issuedOK(row array[string]bytes, pfx bytes, mal array[string]bool, min int, u types.ValidatorUpdate) bool
+//@ axiom forall row array[string]bytes, pfx bytes, mal array[string]bool, min int, u types.ValidatorUpdate, a bytes :: admRule(row, pfx, mal, min, a, u) ==> issuedOK(row, pfx, mal, min, u)   // C10.def-issuedOK-intro
+//@ axiom forall row array[string]bytes, pfx bytes, mal array[string]bool, min int, u types.ValidatorUpdate :: issuedOK(row, pfx, mal, min, u) ==> exists a bytes :: admRule(row, pfx, mal, min, a, u)   // C10.def-issuedOK-elim
+// malSet(vs): the flagged addresses as a set
+//@ ghost func malSet(vs *ValidatorStore) array[string]bool = mapdom(vs.maliciousValidators)
+
+// purgeRule(act,ntDom,ntVal,a,u): update u is the power-0 (purge) update of address a: a was active in Tendermint's last
+//   commit (act = keys of vs.lastActive), a was popped and NOT issued in this block (its text form is a key of the
+//   nonTopValidators map, ntDom/ntVal = that map), u carries the public key recorded there and power 0.
+//@ ghost func purgeRule(act array[string]bool, ntDom array[string]bool, ntVal array[string]types.PubKey, a string, u types.ValidatorUpdate) bool = act[a] && ntDom[addrStr(a)] && u.PubKey == ntVal[addrStr(a)] && u.Power == 0
+// purgedOK(act,ntDom,ntVal,u) is DEFINED as "exists a :: purgeRule(act,ntDom,ntVal,a,u)" (same two-axiom form as issuedOK)
+//@ ghost func purgedOK(act array[string]bool, ntDom array[string]bool, ntVal array[string]types.PubKey, u types.ValidatorUpdate) bool
+//@ axiom forall act array[string]bool, ntDom array[string]bool, ntVal array[string]types.PubKey, u types.ValidatorUpdate, a string :: purgeRule(act, ntDom, ntVal, a, u) ==> purgedOK(act, ntDom, ntVal, u)   // C10.def-purgedOK-intro
+//@ axiom forall act array[string]bool, ntDom array[string]bool, ntVal array[string]types.PubKey, u types.ValidatorUpdate :: purgedOK(act, ntDom, ntVal, u) ==> exists a string :: purgeRule(act, ntDom, ntVal, a, u)   // C10.def-purgedOK-elim
+// purgeGuard(ph, h): the purge-height guard of the code: never purged (ph <= 0) or h is more than two blocks after ph
+//@ ghost func purgeGuard(ph int, h int) bool = !(ph > 0 && h <= wrap64(ph + 2))
+
+// (the fee pool record is fee(st)["00000000000000000000"]: the literal is fees.POOL_KEY, a constant of another package)
+//@ func (*ValidatorStore).GetEndBlockUpdate
+//@   safety C18
+// the fee share total*priority/totalPower is the only non-linear arithmetic here; only its sign is needed (C02.sign)
+//@   opaque-arith
+//@   requires vs != nil && ctx != nil && vs.store != nil && wfState(vs.store)                     // C18.env
+//@   requires ctx.FeePool != nil && ctx.FeePool.feeOpt != nil && ctx.FeePool.state == vs.store    // C18.env
+//@   requires ctx.EvidenceStore != nil && ctx.EvidenceStore.state == vs.store                     // C18.env
+//@   requires ctx.Govern != nil && ctx.Govern.state == vs.store && ctx.Delegators != nil          // C18.env
+//@   requires stkOptOK(ctx.Govern)                                                                // C18.env  (genesis stores the staking options; otherwise logger.Fatal at validator_set.go:403)
+// preconditions of ExecuteAllegationTracker (owner: C19), which this function calls last; nothing before the call writes
+// the request records or the governance options, so they are simply passed on to our caller
+//@   requires eatOK(vs, ctx) && (forall id string :: wfReqAt(ctx.EvidenceStore, id))              // C19.store-wf
+//@   requires evOpt(ctx.Govern).PenaltyBountyDecimals > 0 && 0 <= evOpt(ctx.Govern).PenaltyBountyPercentage && evOpt(ctx.Govern).PenaltyBountyPercentage <= evOpt(ctx.Govern).PenaltyBountyDecimals   // C19.options
+// Go typing: the []*Vote of a stored request never shares its backing array with the []*Queued of the election queue
+// (the engine keeps all pointer slices in one untyped heap, so this separation has to be said)
+//@   requires forall id string :: arr(reqRec(ctx.EvidenceStore, id).Votes) != arr(vs.queue.PriorityQueue)   // C19.store-wf
+//@   requires vs.lastActive != nil                                                                // C10.env  (cacheActiveValidators always make()s it)
+//@   requires vs.maliciousValidators != nil                                                       // C10.env  (NewValidatorStore and CheckMaliciousValidators always make() it)
+//@   requires wfPQ(vs.queue.PriorityQueue)                                                        // C10.queue-wf  (InitValidatorQueue ensures it)
+//@   requires qBound(vs.queue.PriorityQueue)                                                      // C10.higher-stake-first  (InitValidatorQueue ensures it)
+//@   requires qItems(vs.queue.PriorityQueue) && qRow(arr(vs.queue.PriorityQueue)) == verVal(vs.store.cs)[wrap64(req.Height - 1)] && qPfx(arr(vs.queue.PriorityQueue)) == vs.prefix   // C10.queue-from-prev-block  (InitValidatorQueue ensures it for vs.lastHeight - 1; BeginBlock and EndBlock carry the same height)
+//@   requires fee(ctx.FeePool)["00000000000000000000"] >= 0                                                      // C02.pool-nonneg  (ledger invariant of the fee store)
+//@   requires vs.totalPower >= 0 && qNonNeg(vs.queue.PriorityQueue)   // C02.powers-nonneg  (recorded powers are non-negative and their int64 sum did not wrap)
+// TOP-LEVEL C10: every returned update with non-zero power is the update of an admitted validator (purge updates carry 0)
+//@   ensures forall k int :: 0 <= k && k < len(result) && result[k].Power != 0 ==> issuedOK(verVal(old(vs.store.cs))[wrap64(req.Height - 1)], old(vs.prefix), old(malSet(vs)), wrap64(old(stkOpt(ctx.Govern)).MinSelfDelegationAmount), result[k])   // C10.admission
+// TOP-LEVEL C10: a validator's last purge height changes only to this block's height, only for a validator that was active
+// in Tendermint's last commit, and only if it was never purged or this block is more than two after its last purge
+//@   ensures forall a string :: purgeH(vs)[a] != old(purgeH(vs))[a] ==> purgeH(vs)[a] == req.Height && old(has(vs.lastActive, a)) && purgeGuard(old(purgeH(vs))[a], req.Height)   // C10.purge-guard
+//@   invariant loop1: qGood(vs.queue.PriorityQueue) && wfState(vs.store)                            // C10.queue-wf
+//@   invariant loop1: vs.prefix == old(vs.prefix) && vs.store == old(vs.store) && vs.store.cs == old(vs.store.cs) && vs.maliciousValidators == old(vs.maliciousValidators) && malSet(vs) == old(malSet(vs)) && vs.totalPower == old(vs.totalPower) && vs.lastActive == old(vs.lastActive) && vs.prefixPurge == old(vs.prefixPurge)   // C10.frame
+//@   invariant loop1: 0 <= cnt && (cnt <= stakingOptions.TopValidatorCount || cnt == 0) && activeCount == cnt   // C10.top-count
+//@   invariant loop1: len(validatorUpdates) <= cnt                                                // C10.top-count
+//@   invariant loop1: forall k int :: 0 <= k && k < len(validatorUpdates) ==> issuedOK(verVal(old(vs.store.cs))[wrap64(height - 1)], old(vs.prefix), old(malSet(vs)), minSelfDelegationAmount, validatorUpdates[k])   // C10.admission
+//@   invariant loop1: qNonNeg(vs.queue.PriorityQueue)                                              // C02.powers-nonneg
+//@   invariant loop1: total.Amount != nil && big(total.Amount) == old(fee(ctx.FeePool)["00000000000000000000"]) && total.Currency == ctx.FeePool.feeOpt.FeeCurrency && ctx.FeePool.feeOpt != nil   // C02.share
+//@   invariant loop1: feeTotal(ctx.FeePool) == old(feeTotal(ctx.FeePool))                          // C02.conservation
+//@   invariant loop1: fee(ctx.FeePool)["00000000000000000000"] <= old(fee(ctx.FeePool)["00000000000000000000"])                // C02.pool-monotone
+//@   invariant loop1: fee(ctx.FeePool)["00000000000000000000"] >= 0                                // C02.shares-le-pool  (with conservation: what has been paid out = old pool - pool, between 0 and the old pool)
+//@   invariant loop1: (forall id string :: elems(reqRec(ctx.EvidenceStore, id).Votes) == old(elems(reqRec(ctx.EvidenceStore, id).Votes))) && arr(vs.queue.PriorityQueue) == old(arr(vs.queue.PriorityQueue))   // C19.store-wf  (the stored requests' vote arrays are not touched: wfReqAt at the call follows from the requires)
+//@   invariant loop3: 0 <= $i && $i <= len(keysLA)                                                 // C18.index
+// ---- purge loop (loop2 collects the keys of vs.lastActive, loop3 purges)
+//@   invariant loop2: forall j int :: 0 <= j && j < len(keysLA) ==> has(vs.lastActive, keysLA[j])  // C10.purge-active
+//@   invariant loop3: forall j int :: 0 <= j && j < len(keysLA) ==> has(vs.lastActive, keysLA[j])  // C10.purge-active
+//@   invariant loop3: vs.lastActive == old(vs.lastActive) && vs.prefixPurge == old(vs.prefixPurge) && vs.store == old(vs.store)   // C10.frame
+//@   invariant loop3: forall k int :: 0 <= k && k < len(validatorUpdates) ==> issuedOK(verVal(old(vs.store.cs))[wrap64(height - 1)], old(vs.prefix), old(malSet(vs)), minSelfDelegationAmount, validatorUpdates[k]) || purgedOK(mapdom(vs.lastActive), mapdom(nonTopValidators), mapval(nonTopValidators), validatorUpdates[k])   // C10.purge-rule
+//@   invariant loop3: forall k int :: 0 <= k && k < len(validatorUpdates) && validatorUpdates[k].Power != 0 ==> issuedOK(verVal(old(vs.store.cs))[wrap64(height - 1)], old(vs.prefix), old(malSet(vs)), minSelfDelegationAmount, validatorUpdates[k])   // C10.admission
+//@   invariant loop3: minSelfDelegationAmount == wrap64(old(stkOpt(ctx.Govern)).MinSelfDelegationAmount) && height == req.Height   // C10.admission
+//@   invariant loop3: forall a string :: purgeH(vs)[a] != old(purgeH(vs))[a] ==> purgeH(vs)[a] == height && has(vs.lastActive, a) && has(nonTopValidators, addrStr(a)) && purgeGuard(old(purgeH(vs))[a], height)   // C10.purge-guard
+// ---- preferring higher stake: the queue holds last block's recorded powers (qGood: priority == recorded power, and
+// priority <= qMax(arr(queue)), the ghost bound that heap.Pop lowers to the priority it returns). Pops come in
+// non-increasing order, so (H1) qMax <= power of the last update issued and (H2) the last update issued has the smallest
+// power of all issued updates: together, every candidate still queued has at most the power of EVERY update already
+// issued (a candidate is passed over only for low stake, a malicious flag, or because the top count was already filled
+// by validators with at least its power).
+//@   invariant loop1: qRow(arr(vs.queue.PriorityQueue)) == verVal(old(vs.store.cs))[wrap64(height - 1)] && qPfx(arr(vs.queue.PriorityQueue)) == old(vs.prefix)   // C10.queue-from-prev-block
+//@   invariant loop1: len(validatorUpdates) > 0 ==> qMax(arr(vs.queue.PriorityQueue)) <= validatorUpdates[len(validatorUpdates) - 1].Power   // C10.higher-stake-first
+//@   invariant loop1: forall k int :: 0 <= k && k < len(validatorUpdates) ==> validatorUpdates[len(validatorUpdates) - 1].Power <= validatorUpdates[k].Power   // C10.higher-stake-first
